@@ -1145,9 +1145,20 @@ impl Resolver {
                                 Name::Name(r) => self.variables[*r].definition,
                                 Name::Namespace(_, span) => *span,
                             };
+                            // A `use` that tree() appended from the std preamble is not what
+                            // the user wrote: name the user's definition.
+                            let (at, other, note) = if matches!(
+                                self.span_file(&stmt.span),
+                                FileOrLib::Lib(_)
+                            ) && matches!(self.span_file(&span), FileOrLib::File(_))
+                            {
+                                (span, stmt.span, "It collides with this import of the standard library")
+                            } else {
+                                (stmt.span, span, "First definition is here")
+                            };
                             let err = resolution_error!(
                                 self,
-                                stmt.span,
+                                at,
                                 "Name collision - duplicate definitions of {:?}",
                                 name.name()
                             );
@@ -1155,7 +1166,7 @@ impl Resolver {
                                 err,
                                 format!("Maybe {:?} is already imported?", name.name()),
                             );
-                            let err = self.add_help(err, span, "First definition is here".into());
+                            let err = self.add_help(err, other, note.into());
                             errs.push(err);
                         }
                         Entry::Occupied(_) => { /* We allow importing the same thing multiple times */
